@@ -18,6 +18,7 @@ import Wormhole.Tie.Claim
 import Wormhole.Tie.Release
 import Wormhole.Tie.MailboxClose
 import Wormhole.Tie.UsageSql
+import Wormhole.Tie.Prune
 
 set_option linter.unusedSimpArgs false
 
@@ -405,6 +406,36 @@ theorem e_dump_insert (s : Sys) (rebooted now : Time) (blur : Option Nat) (conns
     (by cases blur <;>
         simp [bindArgs, evalArg, Server_dump_stats__insert_current_0, List.lookup, SV.toCell, optNatSV, ofOptNat])
 
+theorem e_all_apps_nameplates (s : Sys) :
+    EntryAll "Server_get_all_apps__select_nameplates_0" Server_get_all_apps__select_nameplates_0 [] s := by
+  refine ⟨by simp [GenSql.all, List.lookup], rfl, (s.db.nameplates.map (·.app)).eraseDups.map .app,
+    by simp [stmtSem, allAppsStmt], ?_⟩
+  have h := (all_apps_nameplates s.db).result
+  have hb : bindArgs Server_get_all_apps__select_nameplates_0 [] = [] := by simp [bindArgs, Server_get_all_apps__select_nameplates_0]
+  rw [hb] at h
+  simp only [List.map, h, List.map_map]
+  congr 1
+
+theorem e_all_apps_mailboxes (s : Sys) :
+    EntryAll "Server_get_all_apps__select_mailboxes_0" Server_get_all_apps__select_mailboxes_0 [] s := by
+  refine ⟨by simp [GenSql.all, List.lookup], rfl, (s.db.mailboxes.map (·.app)).eraseDups.map .app,
+    by simp [stmtSem, allAppsStmt], ?_⟩
+  have h := (all_apps_mailboxes s.db).result
+  have hb : bindArgs Server_get_all_apps__select_mailboxes_0 [] = [] := by simp [bindArgs, Server_get_all_apps__select_mailboxes_0]
+  rw [hb] at h
+  simp only [List.map, h, List.map_map]
+  congr 1
+
+theorem e_all_apps_messages (s : Sys) :
+    EntryAll "Server_get_all_apps__select_messages_0" Server_get_all_apps__select_messages_0 [] s := by
+  refine ⟨by simp [GenSql.all, List.lookup], rfl, (s.db.messages.map (·.app)).eraseDups.map .app,
+    by simp [stmtSem, allAppsStmt], ?_⟩
+  have h := (all_apps_messages s.db).result
+  have hb : bindArgs Server_get_all_apps__select_messages_0 [] = [] := by simp [bindArgs, Server_get_all_apps__select_messages_0]
+  rw [hb] at h
+  simp only [List.map, h, List.map_map]
+  congr 1
+
 /-! ### coverage -/
 
 /-- the statement names that have an entry theorem above -/
@@ -425,6 +456,8 @@ def tiedNames : List String := [
   "AppNamespace__summarize_nameplate_and_store__insert_nameplates_0",
   "AppNamespace__summarize_mailbox_and_store__insert_mailboxes_0",
   "AppNamespace_log_client_version__insert_client_versions_0", "Mailbox_get_messages__select_messages_0",
-  "Server_dump_stats__delete_current_0", "Server_dump_stats__insert_current_0"]
+  "Server_dump_stats__delete_current_0", "Server_dump_stats__insert_current_0",
+  "Server_get_all_apps__select_nameplates_0", "Server_get_all_apps__select_mailboxes_0",
+  "Server_get_all_apps__select_messages_0"]
 
 end Wormhole.Tie
